@@ -4,8 +4,10 @@ import (
 	"bytes"
 	"encoding/json"
 	"fmt"
+	"math/big"
 	"reflect"
 	"sort"
+	"time"
 
 	"github.com/veraison/psatoken"
 	"github.com/veraison/psatoken/encoding"
@@ -253,6 +255,114 @@ func c15CBOR(c *mon.Ctx, g *model.Gen, sn string, v any, sig string, embedded bo
 	}
 }
 
+// richFlat is a flat struct (no embedding) whose fields are not all pointers to
+// scalars: struct-kind values the CBOR / JSON libraries encode natively
+// (time.Time, big.Int), nested structs by value and by pointer, slices, maps.
+type richFlat struct {
+	Name   *string           `cbor:"1,keyasint" json:"name"`
+	When   time.Time         `cbor:"2,keyasint" json:"when"`
+	WhenP  *time.Time        `cbor:"3,keyasint,omitempty" json:"when-p,omitempty"`
+	Big    *big.Int          `cbor:"4,keyasint" json:"big"`
+	Nested richNested        `cbor:"5,keyasint" json:"nested"`
+	NestP  *richNested       `cbor:"6,keyasint,omitempty" json:"nest-p,omitempty"`
+	List   []richNested      `cbor:"7,keyasint,omitempty" json:"list,omitempty"`
+	Map    map[string]uint16 `cbor:"8,keyasint,omitempty" json:"map,omitempty"`
+	Count  uint32            `cbor:"-9,keyasint" json:"count"`
+}
+
+type richNested struct {
+	X int64  `cbor:"1,keyasint" json:"x"`
+	Y string `cbor:"2,keyasint,omitempty" json:"y,omitempty"`
+}
+
+// c15Rich: for a flat struct the embedding-aware serialisers must produce what
+// the plain marshallers produce (same CBOR map / same JSON members), whatever
+// the field types, and populating must reproduce the value.
+func c15Rich(c *mon.Ctx, g *model.Gen) {
+	name := g.Text()
+	v := &richFlat{Name: &name, When: time.Unix(int64(g.R.Intn(1<<31)), 0).UTC(), Nested: richNested{X: int64(g.R.Intn(1000)) - 500, Y: g.Text()}, Count: uint32(g.R.Intn(1 << 30))}
+	v.Big = big.NewInt(int64(g.R.Intn(1 << 40)))
+	if g.R.Intn(2) == 0 {
+		t := time.Unix(int64(g.R.Intn(1<<31)), 0).UTC()
+		v.WhenP = &t
+	}
+	if g.R.Intn(2) == 0 {
+		v.NestP = &richNested{X: 7, Y: "p"}
+	}
+	if g.R.Intn(2) == 0 {
+		v.List = []richNested{{X: 1}, {X: 2, Y: g.Text()}}
+	}
+	if g.R.Intn(2) == 0 {
+		v.Map = map[string]uint16{"a": uint16(g.R.Intn(65536))} // one entry: Go map order must not enter the comparison
+	}
+	c.Eval()
+	bad := func(key, what string, extra map[string]any) {
+		c.Violation("C15/rich-flat/"+key, what, extra)
+	}
+	b, err := encoding.SerializeStructToCBOR(extprof.EM, v)
+	pb, perr := extprof.EM.Marshal(v)
+	if err != nil || perr != nil {
+		bad("cbor-serialise-failed", fmt.Sprintf("serialising a flat struct failed: %v / plain marshaller: %v", err, perr), nil)
+		return
+	}
+	n1, e1 := refcbor.DecodeAll(b)
+	n2, e2 := refcbor.DecodeAll(pb)
+	if e1 != nil || e2 != nil || n1.K != refcbor.Map || n2.K != refcbor.Map || !sameMapCBOR(n1, n2) {
+		bad("cbor-differs-from-plain-marshaller", "for a flat struct the output does not decode to the same map as the plain CBOR marshaller's", map[string]any{"codec_hex": mon.Hex(b), "plain_hex": mon.Hex(pb)})
+		return
+	}
+	back := &richFlat{}
+	if err := encoding.PopulateStructFromCBOR(extprof.DM, b, back); err != nil {
+		bad("cbor-populate-failed", "populating from the serialiser's own output failed: "+err.Error(), map[string]any{"hex": mon.Hex(b)})
+		return
+	}
+	if rb, err := extprof.EM.Marshal(back); err != nil || !bytes.Equal(rb, pb) {
+		bad("cbor-roundtrip-differs", "populate(serialise(v)) != v (compared through the plain marshaller)", map[string]any{"hex": mon.Hex(b)})
+		return
+	}
+	fromPlain := &richFlat{}
+	if err := encoding.PopulateStructFromCBOR(extprof.DM, pb, fromPlain); err != nil {
+		bad("cbor-plain-output-not-populatable", "the plain marshaller's output cannot be populated: "+err.Error(), map[string]any{"hex": mon.Hex(pb)})
+		return
+	}
+	j, err := encoding.SerializeStructToJSON(v)
+	pj, perr := json.Marshal(v)
+	var m1, m2 map[string]any
+	if err != nil || perr != nil || json.Unmarshal(j, &m1) != nil || json.Unmarshal(pj, &m2) != nil || !reflect.DeepEqual(m1, m2) {
+		bad("json-differs-from-plain-marshaller", fmt.Sprintf("for a flat struct the JSON output differs from encoding/json's (%v / %v)", err, perr), map[string]any{"codec": string(j), "plain": string(pj)})
+		return
+	}
+	jback := &richFlat{}
+	if err := encoding.PopulateStructFromJSON(j, jback); err != nil {
+		bad("json-populate-failed", "populating from the serialiser's own JSON failed: "+err.Error(), map[string]any{"json": string(j)})
+		return
+	}
+	if rj, err := json.Marshal(jback); err != nil || !bytes.Equal(rj, pj) {
+		bad("json-roundtrip-differs", "populate(serialise(v)) != v for JSON", map[string]any{"json": string(j), "back": string(rj)})
+		return
+	}
+	c.Count("rich-flat-structs")
+}
+
+// sameMapCBOR compares two definite maps as sets of (key, value) pairs.
+func sameMapCBOR(a, b *refcbor.Node) bool {
+	if len(a.Items) != len(b.Items) {
+		return false
+	}
+	for i := 0; i+1 < len(a.Items); i += 2 {
+		found := false
+		for j := 0; j+1 < len(b.Items); j += 2 {
+			if refcbor.Equal(a.Items[i], b.Items[j]) && refcbor.Equal(a.Items[i+1], b.Items[j+1]) {
+				found = true
+			}
+		}
+		if !found {
+			return false
+		}
+	}
+	return true
+}
+
 // c15IfaceValue: an embedded interface may hold the struct itself instead of
 // a pointer to it ("embedded interface holding a struct"); for serialising
 // that is the same value, so both serialisers must emit the same bytes as for
@@ -493,7 +603,7 @@ func c15Synth(c *mon.Ctx, g *model.Gen, n int, fill string) {
 }
 
 func runC15(c *mon.Ctx) {
-	c.Rule("shapes following the claims convention (pointer-typed tagged fields, '-' for bookkeeping fields): flat; one and two levels of embedded struct; embedded interface holding a struct pointer, the struct by value (must serialise exactly like the pointer-holding twin) or nothing; all-optional flat and embedded; flat reflect.StructOf shapes with N synthetic keys, N (and number of set fields) in {0,1,22,23,24,25,254,255,256,257} (thorough: also 65534..65537, 70000); the two extension profiles built on P2Claims / P1Claims. For random field values x every subset of optional fields (mandatory fields set or nil): the output of SerializeStructToCBOR / JSON, read by the independent CBOR reader / a generic JSON parse, must be exactly one map = union of outer and embedded fields honouring omitempty and '-', right value per key, no duplicates, nothing trailing; serialising twice gives identical bytes; populating a fresh struct reproduces the value (incl. the all-empty one); for shapes without embedding the output decodes to the same map as the plain fxamacker / encoding/json marshaller's; removing a non-optional key makes populate fail (into a zero destination and into one that already holds values), removing an optional one does not; a duplicated CBOR key makes populate fail, also when the map is re-encoded as an indefinite-length / tagged / tagged indefinite-length / non-minimal-length map under the CBOR library's default decoding mode, while each of these forms without the duplicate populates to the same value. Extension profiles: MarshalCBOR/JSON of valid claims = base profile wire map + extension member, and round-trips. distinct_nontrivial = distinct (shape, set-field subset) signatures")
+	c.Rule("a flat struct with struct-kind field values (time.Time, big.Int, nested structs by value / pointer / in slices, map) compared with the plain marshallers and round-tripped; shapes following the claims convention (pointer-typed tagged fields, '-' for bookkeeping fields): flat; one and two levels of embedded struct; embedded interface holding a struct pointer, the struct by value (must serialise exactly like the pointer-holding twin) or nothing; all-optional flat and embedded; flat reflect.StructOf shapes with N synthetic keys, N (and number of set fields) in {0,1,22,23,24,25,254,255,256,257} (thorough: also 65534..65537, 70000); the two extension profiles built on P2Claims / P1Claims. For random field values x every subset of optional fields (mandatory fields set or nil): the output of SerializeStructToCBOR / JSON, read by the independent CBOR reader / a generic JSON parse, must be exactly one map = union of outer and embedded fields honouring omitempty and '-', right value per key, no duplicates, nothing trailing; serialising twice gives identical bytes; populating a fresh struct reproduces the value (incl. the all-empty one); for shapes without embedding the output decodes to the same map as the plain fxamacker / encoding/json marshaller's; removing a non-optional key makes populate fail (into a zero destination and into one that already holds values), removing an optional one does not; a duplicated CBOR key makes populate fail, also when the map is re-encoded as an indefinite-length / tagged / tagged indefinite-length / non-minimal-length map under the CBOR library's default decoding mode, while each of these forms without the duplicate populates to the same value. Extension profiles: MarshalCBOR/JSON of valid claims = base profile wire map + extension member, and round-trips. distinct_nontrivial = distinct (shape, set-field subset) signatures")
 	if err := extprof.Register(extprof.ExtP2Name, extprof.ExtP1Name); err != nil {
 		c.Violation("harness/register", err.Error(), nil)
 		return
@@ -713,6 +823,15 @@ func runC15(c *mon.Ctx) {
 	c.Floor("cbor-all-empty-roundtrips", 2)
 	c.Floor("cbor-plain-equivalence", 100)
 	c.Floor("cbor-missing-mandatory-rejected", 100)
+	for i := 0; i < c.N(300, 20000); i++ {
+		var pn bool
+		var pv string
+		var fr string
+		if pn, pv, fr = mon.Guard(func() { c15Rich(c, g) }); pn {
+			c.Violation("C15/panic/"+mon.PanicKey(fr), "panic on a flat struct with struct-kind fields", map[string]any{"panic": pv, "frame": fr})
+		}
+	}
+	c.Floor("rich-flat-structs", 100)
 	c.Floor("cbor-duplicate-key-rejected", 100)
 	c.Floor("interface-holding-value-twins", 100)
 	c.Floor("synthetic-cbor-roundtrips", 30)
